@@ -59,46 +59,11 @@ func specDiffers(c *Case, want, impl string) bool {
 	return differs
 }
 
-// an index expression that contains a minus sign or the standard environment's -3 (the only way the generators reach index -1)
-var minusOneIndexRe = regexp.MustCompile(`\[[^\]]*(-|\$j)[^\]]*\]`)
-
 // stable keys of the deviation families (matched against known_findings.json)
 var specKeys = map[string]string{}
 
 func classifyDeviation(c *Case, want, impl string) string {
-	dec := func(s string) string {
-		f := strings.Fields(s)
-		if len(f) >= 2 {
-			b, _ := unhx(f[1])
-			return string(b)
-		}
-		return ""
-	}
-	w, i := dec(want), dec(impl)
-	sorted := func(s string) string {
-		b := []byte(s)
-		sortBytesInPlace(b)
-		return string(b)
-	}
-	switch {
-	case want == "ERR" && strings.HasPrefix(impl, "OK") && strings.Contains(i, "undefined"):
-		return "spec-deviation:map-with-undefined-member-prints-undefined"
-	case strings.HasPrefix(want, "OK") && strings.HasPrefix(impl, "OK") && strings.Contains(w, "{") && sorted(w) == sorted(i):
-		return "spec-deviation:map-printed-in-item-order-not-key-order"
-	case strings.HasPrefix(want, "OK") && strings.HasPrefix(impl, "ERR") && minusOneIndexRe.MatchString(c.Note):
-		return "spec-deviation:list-index-minus-one-is-an-error"
-	case strings.HasPrefix(want, "OK") && strings.HasPrefix(impl, "OK") && strings.Contains(c.Note, "round("):
-		return "spec-deviation:round-adds-one-half-in-floating-point"
-	}
 	return "spec-deviation:" + c.Note
-}
-
-func sortBytesInPlace(b []byte) {
-	for i := 1; i < len(b); i++ {
-		for j := i; j > 0 && b[j-1] > b[j]; j-- {
-			b[j-1], b[j] = b[j], b[j-1]
-		}
-	}
 }
 
 func specReqOf(r string) string { return "spec-" + r }
